@@ -110,7 +110,9 @@ def InvC (s : State) : Prop :=
     before was dispatchable, (A) gives a token, an owed notify() or an event loop that is active;
     `bcast g'`: g' holds w.mx, so by (M) it is `g` itself and the Broadcasts owed by others are
     untouched; `dCur` in phase `exiting` with result 0: the event loop owes a Broadcast, it is not
-    `g`, and `owesBc g ≤ nOwesBc` makes the inequality strict. -/
+    `g`, and `owesBc g ≤ nOwesBc` makes the inequality strict; `pCur` (pause() loading cur) is a
+    pure read or adds an owed Broadcast, which preserves the strict inequality also when it is
+    `g` itself. -/
 theorem invG_step {s s' : State} {e : Ev} (hA : InvA s) (hM : InvM s) (hle : ∀ g, s.owesBc g ≤ s.nOwesBc)
     (hi : InvG s) (h : step s e = .ok s') : InvG s' := by
   unfold InvA Dispatchable at hA
